@@ -96,6 +96,9 @@ func (e *Query) toIndexKey() any {
 }
 
 func (e *Query) toIndices(xs []any) []any {
+	if verifOptOff(8) {
+		return nil
+	}
 	if e.Term == nil {
 		return nil
 	}
@@ -308,6 +311,9 @@ func (e *Unary) writeTo(s *strings.Builder) {
 }
 
 func (e *Unary) toNumber() any {
+	if verifOptOff(9) {
+		return nil
+	}
 	v := e.Term.toNumber()
 	if v != nil && e.Op == OpSub {
 		v = funcOpNegate(v)
@@ -433,6 +439,8 @@ func (e *Index) writeSuffixTo(s *strings.Builder) {
 func (e *Index) toIndexKey() any {
 	if e.Name != "" {
 		return e.Name
+	} else if verifOptOff(7) {
+		return nil
 	} else if e.Str != nil {
 		if e.Str.Queries == nil {
 			return e.Str.Str
